@@ -176,6 +176,16 @@ func checkC01(c *chk.Ctx) {
 				msg.Fields = append(msg.Fields, &abs.Field{Name: "b2", Num: 5, Kind: "int32", Card: "one", Oneof: "choice", Rules: abs.NoRules()})
 			case "ts":
 				b.Kind, b.Ref = "message", "google.protobuf.Timestamp"
+			case "int64num":
+				b.Kind, b.Ann.Int64 = "int64", "NUMBER"
+			case "uint64num":
+				b.Kind, b.Ann.Int64 = "uint64", "NUMBER"
+			case "byteshex":
+				b.Kind, b.Ann.Bytes = "bytes", "HEX"
+			case "tsms":
+				b.Kind, b.Ref, b.Ann.Ts = "message", "google.protobuf.Timestamp", "UNIX_MILLIS"
+			case "nullable":
+				b.Card, b.Ann.Nullable = "opt", true
 			}
 			msg.Fields = append(msg.Fields, b)
 		}
@@ -321,6 +331,21 @@ func checkC01(c *chk.Ctx) {
 						m.Set(fds.ByName("b2"), protoreflect.ValueOfInt32(0)) // oneof member set to its zero value
 					} else {
 						m.Set(fd, protoreflect.ValueOfString("chosen"))
+					}
+				case "int64num":
+					m.Set(fd, protoreflect.ValueOfInt64(map[bool]int64{false: 9007199254740993, true: 9223372036854775807}[big]))
+				case "uint64num":
+					m.Set(fd, protoreflect.ValueOfUint64(map[bool]uint64{false: 9223372036854775809, true: 18446744073709551615}[big]))
+				case "byteshex":
+					m.Set(fd, protoreflect.ValueOfBytes(map[bool][]byte{false: []byte("bin"), true: {0xff, 0x00, 0xfe, 0x3e, 0x3f}}[big]))
+				case "tsms":
+					ts := dynamicpb.NewMessage(fd.Message())
+					ts.Set(fd.Message().Fields().ByName("seconds"), protoreflect.ValueOfInt64(map[bool]int64{false: 1705312200, true: 253402300799}[big]))
+					ts.Set(fd.Message().Fields().ByName("nanos"), protoreflect.ValueOfInt32(map[bool]int32{false: 123000000, true: 999000000}[big]))
+					m.Set(fd, protoreflect.ValueOfMessage(ts))
+				case "nullable":
+					if !big { // (max: left unset - the wire says null)
+						m.Set(fd, protoreflect.ValueOfString("present"))
 					}
 				case "ts":
 					ts := dynamicpb.NewMessage(fd.Message())
